@@ -229,13 +229,32 @@ async def _main(env, case, loop, want_db):
         env.raised = []
         wf, ports = await _build(env, case, ctx)
         persisted = []  # log of _persist_token calls: (step, port, token id, input ids)
+        calls, dbev = [], []
+        db0 = ctx.database
+        o_add_token, o_add_prov = db0.add_token, db0.add_provenance
+
+        async def add_token(*a, **k):
+            r = await o_add_token(*a, **k)
+            dbev.append(["alloc", r])
+            return r
+
+        async def add_provenance(inputs, token):
+            r = await o_add_prov(inputs=inputs, token=token)
+            dbev.append(["prov", token])
+            return r
+
+        db0.add_token, db0.add_provenance = add_token, add_provenance
         for st in wf.steps.values():
             orig = st._persist_token
 
             async def logged(token, port, input_token_ids, _o=orig, _s=st):
                 ids = list(input_token_ids)
+                k = len(calls)
+                calls.append(k)
+                dbev.append(["begin", k, ids])
                 r = await _o(token=token, port=port, input_token_ids=input_token_ids)
-                persisted.append([_s.name, port.name, r.persistent_id, sorted(ids)])
+                dbev.append(["end", k, r.persistent_id])
+                persisted.append([_s.name, port.name, r.persistent_id, sorted(i for i in ids if i is not None)])
                 return r
 
             st._persist_token = logged
@@ -312,6 +331,7 @@ async def _main(env, case, loop, want_db):
         obs["ports"] = pd
         obs["persisted"] = persisted
         obs["raised"] = sorted(env.raised)
+        obs["dbev"] = dbev
         if want_db:
             db = ctx.database
             async with db.connection as c:
